@@ -154,8 +154,8 @@ func Matches(got, want interface{}) bool {
 	switch w := want.(type) {
 	case Bag:
 		g, ok := got.([]interface{})
-		if !ok || len(g) != len(w.Items) {
-			return false
+		if !ok || g == nil || len(g) != len(w.Items) {
+			return false // a nil slice is not an array: it serialises as null
 		}
 		return matchBag(g, w.Items)
 	case TextOf:
@@ -172,7 +172,7 @@ func Matches(got, want interface{}) bool {
 		return false
 	case []interface{}:
 		g, ok := got.([]interface{})
-		if !ok || len(g) != len(w) {
+		if !ok || g == nil || len(g) != len(w) {
 			return false
 		}
 		for i := range w {
@@ -183,7 +183,7 @@ func Matches(got, want interface{}) bool {
 		return true
 	case map[string]interface{}:
 		g, ok := got.(map[string]interface{})
-		if !ok || len(g) != len(w) {
+		if !ok || g == nil || len(g) != len(w) {
 			return false
 		}
 		for k, v := range w {
